@@ -690,7 +690,7 @@ def selftest_mutants(root, only=None, pattern='mutants'):
     env['VERIF_BUILD_TAG'] = '_mut'
     env['VERIF_REPLAYS_DIR'] = os.path.join(root, 'build', 'work', 'mut_replays')
     env['VERIF_EVIDENCE_DIR'] = os.path.join(root, 'build', 'work', 'mut_evidence')
-    env.setdefault('VERIF_QUICK_WALL', '60')
+    env.setdefault('VERIF_QUICK_WALL', '120')
     for f in files:
         name = os.path.basename(f) if f.endswith('.patch') else os.path.basename(os.path.dirname(f))
         prop = name.split('-')[0]
